@@ -67,6 +67,8 @@ def build_spec(p: bytes, ncr=None):
                   # a second title element that is never closed (browsers ignore it), raw and as character references; hexadecimal references
                   "two.html": b"<html><head><title>first</title><title>" + b"".join(b"&#%d;" % c for c in ncr) + b"\n</head><body>x</body></html>\n",
                   "tworaw.html": b"<html><head><TITLE>first</TITLE><title lang=en>" + ncr.replace(b"<", b"&lt;") + b"\n<body>x</body></html>\n",
+                  # a title whose payload comes after more blank runs than any small count (a collapse applied to the first few only)
+                  "long.html": b"<html><head><title>w1 w2\tw3  w4 w5\n w6 w7 w8 w9 w10 " + ncr + b"</title></head><body>x</body></html>\n",
                   "hex.html": b"<html><head><title>H" + b"".join(b"&#x%x;" % c for c in ncr) + b"</title></head><body>x</body></html>\n"},
         "mail": {"box.mbox": b"From a@b Thu Jan  1 00:00:01 2004\nFrom: a@b\nSubject: " + ncr.replace(b"\n", b"\n ").replace(b"\r", b" ") + b"\n\nbody\n\n"
                              b"From c@d Thu Jan  1 00:00:02 2004\nSubject: =?utf-8?q?enc_" + qp(ncr) + b"_word?=\n\nb2\n\n"
@@ -84,7 +86,10 @@ def build_spec(p: bytes, ncr=None):
                             b"hUrl\tURL:http://u/" + p.replace(b"\n", b"").replace(b"\r", b"") + b"\n"
                             b"7Srch\t/q" + p.replace(b"\n", b"").replace(b"\r", b"") + b"\n"
                             b"7RemoteSearch\t/s\th" + p.replace(b"\n", b"").replace(b"\r", b"") + b"\t70\n"
-                            b"7UrlSearch\tURL:http://u/" + p.replace(b"\n", b"").replace(b"\r", b"") + b"\n",
+                            b"7UrlSearch\tURL:http://u/" + p.replace(b"\n", b"").replace(b"\r", b"") + b"\n"
+                            # URL: targets that look like local paths
+                            b"hUrlLocal\tURL:/l/" + p.replace(b"\n", b"").replace(b"\r", b"") + b"\n"
+                            b"7UrlLocalSearch\tURL:/ls/" + p.replace(b"\n", b"").replace(b"\r", b"") + b"\n",
                "f.txt": b"f\n"},
         "clean": {"c.txt": b"no payload here\n", "sub": {}},
         # the same hostile links as in "links"/"gm", but after more entries than there are WAP access keys
@@ -152,7 +157,7 @@ def requests(p: bytes):
     out.append(("title", "gopherp", b"/title/ncr.html\t!\r\n"))
     out.append(("title", "gopherp", b"/title/page.html\t!\r\n"))
     out.append(("title", "gopherp", b"/title/ncr.html\t!\r\n"))
-    for f in (b"two.html", b"tworaw.html", b"hex.html"):
+    for f in (b"two.html", b"tworaw.html", b"hex.html", b"long.html"):
         out.append(("title", "gopherp", b"/title/" + f + b"\t!\r\n"))
     out.append(("title", "gopher", b"/title\r\n"))
     out.append(("mail/box.mbox", "gopher", b"/mail/box.mbox\r\n"))
